@@ -14,7 +14,7 @@ Theorem C11_graph_hypothesis : forall adj, Forall increasing adj -> adj_nodup ad
 Proof. exact adj_increasing_nodup. Qed.
 Print Assumptions C11_graph_hypothesis.
 
-Theorem C11_created_groups_are_wf : forall fixD2 g, create fixD2 g = Created -> graph_wf (g_shape g) -> shape_wf (g_shape g).
+Theorem C11_created_groups_are_wf : forall fix2 g, create fix2 g = Created -> graph_wf (g_shape g) -> shape_wf (g_shape g).
 Proof. exact created_wf. Qed.
 Print Assumptions C11_created_groups_are_wf.
 
@@ -92,66 +92,66 @@ Print Assumptions C11_bitlength_exact.
 
 (* C10: the variable count bounds every variable a clause mentions, provided checked
    insertions are accepted ones and unchecked insertions mention declared variables only *)
-Theorem C10_numvar_bounds_mentioned : forall fixD2 ops st, inv st -> ops_ok fixD2 st ops -> inv (run fixD2 st ops).
+Theorem C10_numvar_bounds_mentioned : forall v ops st, inv st -> ops_ok v st ops -> inv (run v st ops).
 Proof. exact inv_run. Qed.
 Print Assumptions C10_numvar_bounds_mentioned.
 
 (* C10: a new group never gets an identifier that an earlier clause mentions *)
-Theorem C10_fresh_allocation : forall fixD2 ops g st' off, ops_ok fixD2 init_state ops ->
-  step fixD2 (run fixD2 init_state ops) (NewGroup g) = (st', Allocated off) ->
-  forall c l, In c (clauses (run fixD2 init_state ops)) -> In l c -> Z.abs l <= off.
+Theorem C10_fresh_allocation : forall v ops g st' off, ops_ok v init_state ops ->
+  step v (run v init_state ops) (NewGroup g) = (st', Allocated off) ->
+  forall c l, In c (clauses (run v init_state ops)) -> In l c -> Z.abs l <= off.
 Proof. exact fresh_in_history. Qed.
 Print Assumptions C10_fresh_allocation.
 
 (* without the side condition it fails: a checked insertion that raises ValueError
    (literal 0) has already stored its clause *)
 Theorem C10_rejected_clause_refuted : exists ops st' off,
-  step false (run false init_state ops) (NewGroup (mkgroup Single ["Y"%string])) = (st', Allocated off) /\
-  exists c l, In c (clauses (run false init_state ops)) /\ In l c /\ off + 1 <= Z.abs l.
+  step as_is (run as_is init_state ops) (NewGroup (mkgroup Single ["Y"%string])) = (st', Allocated off) /\
+  exists c l, In c (clauses (run as_is init_state ops)) /\ In l c /\ off + 1 <= Z.abs l.
 Proof. exact inv_rejected_clause_refuted. Qed.
 Print Assumptions C10_rejected_clause_refuted.
 
 (* groups are laid out in increasing disjoint ranges below the variable count *)
-Theorem C11_layout : forall fixD2 ops st, layout st -> Forall op_wf ops -> layout (run fixD2 st ops).
+Theorem C11_layout : forall v ops st, layout st -> Forall op_wf ops -> layout (run v st ops).
 Proof. exact layout_run. Qed.
 Print Assumptions C11_layout.
 
 (* one name per variable, for the code as it is and for every history *)
-Theorem C11_labels_length : forall fixD2 fixD3 dflt ops, Forall op_wf ops ->
-  len (all_variable_labels fixD3 dflt (run fixD2 init_state ops)) = numvar (run fixD2 init_state ops).
+Theorem C11_labels_length : forall v fixD3 dflt ops, Forall op_wf ops ->
+  len (all_variable_labels fixD3 dflt (run v init_state ops)) = numvar (run v init_state ops).
 Proof. exact labels_length_history. Qed.
 Print Assumptions C11_labels_length.
 
 (* "the i-th name is the name of variable i", full statement *)
 Definition C11_labels_aligned_statement : Prop := forall ops dflt, Forall op_wf ops ->
-  all_variable_labels false dflt (run false init_state ops) = names_of_variables dflt (run false init_state ops).
+  all_variable_labels false dflt (run as_is init_state ops) = names_of_variables dflt (run as_is init_state ops).
 
 (* ... is FALSE of the code as it is: update_variable_number(3); new_variable('X') gives ['X','x2','x3','x4'] *)
 Theorem C11_labels_refuted : exists ops dflt, Forall op_wf ops /\
-  all_variable_labels false dflt (run false init_state ops) <> names_of_variables dflt (run false init_state ops).
+  all_variable_labels false dflt (run as_is init_state ops) <> names_of_variables dflt (run as_is init_state ops).
 Proof. exact labels_refuted. Qed.
 Print Assumptions C11_labels_refuted.
 
 (* ... holds for every history in which no singleton variable directly follows anonymous
    variables (fixD3 = false), and for every history with the repaired enumeration (fixD3 = true) *)
-Theorem C11_labels_partial : forall fixD2 fixD3 dflt ops, Forall op_wf ops ->
-  fixD3 = true \/ singles_tight 0 (groups (run fixD2 init_state ops)) = true ->
-  all_variable_labels fixD3 dflt (run fixD2 init_state ops) = names_of_variables dflt (run fixD2 init_state ops).
+Theorem C11_labels_partial : forall v fixD3 dflt ops, Forall op_wf ops ->
+  fixD3 = true \/ singles_tight 0 (groups (run v init_state ops)) = true ->
+  all_variable_labels fixD3 dflt (run v init_state ops) = names_of_variables dflt (run v init_state ops).
 Proof. exact labels_aligned_history. Qed.
 Print Assumptions C11_labels_partial.
 
-Theorem C11_labels_nth : forall fixD2 fixD3 dflt ops i, Forall op_wf ops ->
-  fixD3 = true \/ singles_tight 0 (groups (run fixD2 init_state ops)) = true ->
-  1 <= i <= numvar (run fixD2 init_state ops) ->
-  znth (i - 1) (all_variable_labels fixD3 dflt (run fixD2 init_state ops)) = Some (label_of dflt (run fixD2 init_state ops) i).
+Theorem C11_labels_nth : forall v fixD3 dflt ops i, Forall op_wf ops ->
+  fixD3 = true \/ singles_tight 0 (groups (run v init_state ops)) = true ->
+  1 <= i <= numvar (run v init_state ops) ->
+  znth (i - 1) (all_variable_labels fixD3 dflt (run v init_state ops)) = Some (label_of dflt (run v init_state ops) i).
 Proof. exact labels_nth_history. Qed.
 Print Assumptions C11_labels_nth.
 
-(* new_combinations_with_replacement: UnboundLocalError in the code as it is (fixD2 = false);
+(* new_combinations_with_replacement: UnboundLocalError in the code as it is (v = false);
    with the spelling repaired the group obeys all the theorems above (kind WCombRepl) *)
 Theorem C11_combinations_with_replacement_crash : forall n k fmt st, 0 <= n -> 0 <= k ->
   fmt_ok (Words WCombRepl n k) fmt = true ->
-  step false st (NewGroup (mkgroup (Words WCombRepl n k) fmt)) = (st, Crash).
+  step as_is st (NewGroup (mkgroup (Words WCombRepl n k) fmt)) = (st, Crash).
 Proof. exact combrepl_crash_as_is. Qed.
 Print Assumptions C11_combinations_with_replacement_crash.
 
@@ -165,7 +165,7 @@ Example C11_nonvacuous :
   to_index 0 (BinMap 10 13) (-41) = None /\ to_index 10 (BinMap 10 13) (-18) = Some [2; 0] /\
   to_id 0 (GraphEdges [[2; 3]; [1; 3; 4]; [1; 2]; [2]]) [3; 1] = Some 2 /\
   indices (Words WPerm 3 2) = [[1; 2]; [1; 3]; [2; 1]; [2; 3]; [3; 1]; [3; 2]] /\
-  singles_tight 0 (groups (run false init_state [NewGroup (mkgroup Single ["X"%string]); NewGroup (mkgroup (Block [2; 3]) ["z"; ","; ""]%string)])) = true.
+  singles_tight 0 (groups (run as_is init_state [NewGroup (mkgroup Single ["X"%string]); NewGroup (mkgroup (Block [2; 3]) ["z"; ","; ""]%string)])) = true.
 Proof.
   split; [split; [discriminate|repeat constructor; discriminate]|].
   split; [reflexivity|]. split; [reflexivity|].
